@@ -66,6 +66,8 @@ pub struct ManagedSnapshot {
     pub users: usize,
     /// `(size, creating, max_size, idle)` unless the slots are locked.
     pub slots: Option<(usize, usize, usize, usize)>,
+    /// Whether the slots mutex is poisoned (a thread panicked while holding it).
+    pub poisoned: bool,
 }
 
 /// Internal state of an unmanaged pool.
